@@ -100,6 +100,8 @@ def plan(tier, seed):
         n, ch = _N[tier][kind], _CHUNK[tier][kind]
         for s in range(0, n, ch):
             units.append({"kind": kind, "start": s, "stop": min(n, s + ch), "w": (min(n, s + ch) - s) * cost[kind]})
+    if tier == "thorough":
+        units.append({"kind": "suite", "w": 200})      # the repository's own tests with the contracts installed
     return units
 
 
